@@ -589,6 +589,28 @@ func (sk *skeleton) rel(path string) (string, bool) {
 	return r[1:], true
 }
 
+// openFault: environment deviation installed by a driver: given the name and
+// flags of an os.OpenFile call in rewritten repository code it returns the
+// error the call is to fail with (nil: the call proceeds).
+var openFault atomic.Pointer[func(name string, flag int) error]
+
+// SetOpenFault installs (nil: removes) the OpenFile fault.
+func SetOpenFault(f func(name string, flag int) error) {
+	if f == nil {
+		openFault.Store(nil)
+		return
+	}
+	openFault.Store(&f)
+}
+
+// OpenFault is called by the os shim before every OpenFile.
+func OpenFault(name string, flag int) error {
+	if f := openFault.Load(); f != nil {
+		return (*f)(name, flag)
+	}
+	return nil
+}
+
 // FastDir reports that path is an existing skeleton directory.
 func FastDir(path string) bool {
 	sk := fastSkel.Load()
